@@ -56,6 +56,27 @@ def shards(tier, seed):
 
 
 def gen_ud(rng, acc):
+    """as the operator writes it: plain hex or with the 0x prefix the tools also take"""
+    hx = gen_ud_hex(rng, acc)
+    k = rng.random()
+    if k < 0.15:
+        # leading zero nibbles (a small number, an all-zero value)
+        z = rng.choice([1, 2, 3, 8, 63, 64])
+        hx = "0" * z + hx[z:]
+    if rng.random() < 0.3:
+        acc.count("ud_values_given_with_0x_prefix")
+        return UD("0x" + hx)
+    return UD(hx)
+
+
+class UD(str):
+    """the UD source as typed (possibly 0x-prefixed); .hex32 is the 32 bytes it denotes"""
+    @property
+    def hex32(self):
+        return str(self)[2:] if self.startswith("0x") else str(self)
+
+
+def gen_ud_hex(rng, acc):
     """user-defined value; a third of them begin with bytes that read as text right
     after the message header (ASCII digits, dots, colons), which is where a header
     parser that is too greedy goes wrong"""
@@ -157,7 +178,7 @@ def ledger_run(acc, cseed, alter, tmpdir):
             ("reboot", None, None, None),
             ("attestation", do_attestation,
              options(pin=pin, output_file_path=final, attestation_certificate_file_path=setup,
-                     attestation_ud_source=ud), ""),
+                     attestation_ud_source=str(ud)), ""),
             ("pubkeys", do_get_pubkeys, options(no_unlock=True, output_file_path=pkout), ""),
             ("verify", do_verify_attestation, None, ""),
         ]
@@ -199,7 +220,7 @@ def ledger_run(acc, cseed, alter, tmpdir):
         acc.count("genuine_verified")
         # values printed are the device's
         want = {
-            ("UD value", 0): ud,
+            ("UD value", 0): ud.hex32,
             ("Derived public key (m/44'/0'/0'/0/0)", 0):
                 g1.pub33(gd.wallet["m/44'/0'/0'/0/0"]).hex(),
             ("Authorized signer hash", 0): gd.auth_signer_hash.hex(),
@@ -209,7 +230,7 @@ def ledger_run(acc, cseed, alter, tmpdir):
             ("Installed Signer hash", 0): gd.signer_hash.hex(),
         }
         if framing == "current":
-            want[("UD value", 1)] = ud
+            want[("UD value", 1)] = ud.hex32
             want[("Best block", 0)] = gd.best_block.hex()
             want[("Last transaction signed", 0)] = gd.last_tx.hex()
             want[("Platform", 0)] = "led"
@@ -321,7 +342,7 @@ def sgx_run(acc, cseed, alter, tmpdir):
         for name, fn in (("attestation", do_attestation), ("pubkeys", do_get_pubkeys),
                          ("verify", do_verify_attestation)):
             if name == "attestation":
-                opts = options(pin=pin, output_file_path=final, attestation_ud_source=ud,
+                opts = options(pin=pin, output_file_path=final, attestation_ud_source=str(ud),
                                any_pin=True)
             elif name == "pubkeys":
                 opts = options(no_unlock=True, output_file_path=pkout)
@@ -359,7 +380,7 @@ def sgx_run(acc, cseed, alter, tmpdir):
             return
         acc.count("genuine_verified")
         q = gd.material.quote
-        want = {"Hash": gd.keys_hash().hex(), "UD value": ud, "Best block": gd.best_block.hex(),
+        want = {"Hash": gd.keys_hash().hex(), "UD value": ud.hex32, "Best block": gd.best_block.hex(),
                 "Last transaction signed": gd.last_tx.hex(), "Platform": "sgx",
                 "Installed powHSM MRENCLAVE": q[48 + 64:48 + 96].hex(),
                 "Installed powHSM MRSIGNER": q[48 + 128:48 + 160].hex()}
